@@ -184,7 +184,7 @@ theorem token_valid_eq (o : VOpts) (b : Bytes) (hlen : b.length + 2 < 2^61) : is
       have hrej := rej_delimbyte o good_init (b.take (consumeWhitespace b)) c rest hpre hdb 0 0 (b.length + 1)
       rw [← hsplit] at hrej
       unfold Rej at hrej
-      have : ((tokenLoop o (b.length + 1) {} b 0 0).2.2 == Err.ioEOF) = false := by simpa using hrej
+      have : ((tokenLoop o (b.length + 1) {} b 0 0).2.2 == Err.ioEOF) = false := by simpa using hrej.2
       simp [this]
     · have hdb' : (c == 0x3A || c == 0x2C) = false := by simpa using hdb
       simp only [hdb', Bool.false_eq_true, if_false]
@@ -205,7 +205,7 @@ theorem token_valid_eq (o : VOpts) (b : Bytes) (hlen : b.length + 2 < 2^61) : is
       · have hrej := hsv.2 he (b.length + 1)
         rw [← hsplit] at hrej
         unfold Rej at hrej
-        have h1 : ((tokenLoop o (b.length + 1) {} b 0 0).2.2 == Err.ioEOF) = false := by simpa using hrej
+        have h1 : ((tokenLoop o (b.length + 1) {} b 0 0).2.2 == Err.ioEOF) = false := by simpa using hrej.2
         have h2 : (e != .ok) = true := by simpa using he
         simp [h1, h2, he]
       have he' : e = .ok := by simpa using he
@@ -246,5 +246,91 @@ theorem token_valid_eq (o : VOpts) (b : Bytes) (hlen : b.length + 2 < 2^61) : is
         · have : ((tokenLoop o (b.length - T + 1) st' r' 1 (consumeWhitespace b + n)).2.2 == Err.ioEOF) = false := by
             simpa using hio
           simp [this]
+
+/-! ### streams -/
+
+/-- The two loops over a stream: same number of completed top-level values, io.EOF on the same inputs. -/
+theorem stream_sim (o : VOpts) (vfuel : Nat) : ∀ (fuel : Nat) (r : Bytes) (cnt base bb : Nat) (st : TState) (k F : Nat),
+    TGood bb st [.arr k] → bb + r.length + 1 < 2^61 → 3 * r.length + 1 ≤ vfuel → r.length + 1 ≤ fuel → r.length + 1 ≤ F →
+    (tokenLoop o F st r cnt base).1 = (streamLoop o vfuel fuel r cnt base).1 ∧
+    ((tokenLoop o F st r cnt base).2.2 = .ioEOF ↔ (streamLoop o vfuel fuel r cnt base).2.2 = .ioEOF) := by
+  intro fuel
+  induction fuel with
+  | zero => intro r cnt base bb st k F _ _ _ h; omega
+  | succ fuel ih =>
+    intro r cnt base bb st k F hg hroom hvf hfu hF
+    have hdep : (st.m.depth == 1) = true := by rw [good_depth hg]; simp
+    cases hd : r.drop (consumeWhitespace r) with
+    | nil =>
+      have hrv : readValueTop o vfuel r = (consumeWhitespace r, .ioEOF) := by simp [readValueTop, hd]
+      simp only [streamLoop, hrv]
+      have hw : JWs r := jws_of_drop_nil r hd
+      have hrt := readToken_end o st r hw
+      rw [hdep] at hrt
+      simp only [if_true] at hrt
+      obtain ⟨F', rfl⟩ : ∃ F', F = F' + 1 := ⟨F - 1, by omega⟩
+      rw [tokenLoop_err o F' st r cnt base _ _ hrt]
+      simp
+    | cons c rest =>
+      have hsplit := split_at_drop r _ c rest hd
+      have hl1 := len_of_drop r _ c rest hd
+      have hcw : isWs c = false := by
+        have := ws_stop r c rest hd; rw [← isWs_iff] at this; simpa using this
+      have hpre : PreOK (ncDelim [.arr k]) (r.take (consumeWhitespace r)) := Or.inl ⟨ncDelim_bottom _, ws_take r⟩
+      by_cases hdb : (c == 0x3A || c == 0x2C) = true
+      · have hrv : readValueTop o vfuel r = (consumeWhitespace r, .invalidChar) := by simp [readValueTop, hd, hdb]
+        simp only [streamLoop, hrv]
+        have hrej := rej_delimbyte o hg (r.take (consumeWhitespace r)) c rest hpre hdb cnt base F
+        rw [← hsplit] at hrej
+        obtain ⟨h1, h2⟩ := hrej
+        simp [h1, h2]
+      · have hdb' : (c == 0x3A || c == 0x2C) = false := by simpa using hdb
+        have hrv : readValueTop o vfuel r = addOff (consumeWhitespace r) (consumeValue o vfuel 1 (c :: rest)) := by
+          simp [readValueTop, hd, hdb']
+        simp only [streamLoop, hrv]
+        have hav : AtValue bb 1 st (.arr k) [] (r.take (consumeWhitespace r)) c rest :=
+          { good := hg
+            depth := rfl
+            vpos := rfl
+            pre := hpre
+            cws := hcw
+            guard := by intro _ h; exact absurd rfl h
+            room := by simp; omega }
+        have hsv := (sim_all o vfuel).1 1 c rest bb st (.arr k) [] (r.take (consumeWhitespace r)) cnt base hav
+          (by simp; omega)
+        have hnb := (no_fuel_all o vfuel).1 1 (c :: rest) (by simp; omega)
+        rcases hcv : consumeValue o vfuel 1 (c :: rest) with ⟨n, e⟩
+        rw [hcv] at hsv hnb
+        simp only [addOff]
+        by_cases he : e ≠ .ok
+        · have hrej := hsv.2 he F
+          rw [← hsplit] at hrej
+          obtain ⟨h1, h2⟩ := hrej
+          have h3 : (e != .ok) = true := by simpa using he
+          have h4 : e ≠ .ioEOF := not_bad_ne_ioeof hnb
+          simp [h1, h2, h3, h4]
+        have he' : e = .ok := by simpa using he
+        subst he'
+        simp only [bne_self_eq_false, Bool.false_eq_true, if_false]
+        obtain ⟨T, st', hT1, hTn, hnl, hg', -, hst⟩ := hsv.1 rfl
+        rw [← hsplit] at hst
+        simp only [if_true, Frame.bump] at hst hg'
+        have hn0 : ¬ ((consumeWhitespace r + n == 0) = true) := by simp; omega
+        simp only [hn0, Bool.false_eq_true, if_false]
+        have hTF : T ≤ F := by simp at hnl; omega
+        rw [hst.1 F hTF]
+        have hrdrop : (c :: rest).drop n = r.drop (consumeWhitespace r + n) := by
+          rw [← List.drop_drop, hd]
+        rw [hrdrop, take_ws_len r, Nat.add_assoc]
+        have hlen' : (r.drop (consumeWhitespace r + n)).length + (consumeWhitespace r + n) = r.length := by
+          simp only [List.length_drop]; simp at hnl; omega
+        exact ih (r.drop (consumeWhitespace r + n)) (cnt + 1) (base + (consumeWhitespace r + n)) (bb + T) st' (k + 1)
+          (F - T) hg' (by omega) (by omega) (by omega) (by simp at hnl; omega)
+
+/-- **Stream-level agreement of the two paths** (inputs shorter than 2^61 bytes). -/
+theorem token_stream_eq (o : VOpts) (b : Bytes) (hlen : b.length + 2 < 2^61) :
+    (tokens o b).1 = (stream o b).1 ∧ ((tokens o b).2.2 = .ioEOF ↔ (stream o b).2.2 = .ioEOF) :=
+  stream_sim o (fuelFor b) (b.length + 1) b 0 0 0 {} 0 (b.length + 1) good_init (by omega) (by simp [fuelFor])
+    (Nat.le_refl _) (Nat.le_refl _)
 
 end JsonV.Lemmas.WireTokenTop
